@@ -26,19 +26,72 @@ _SIMPLE = (str, bytes, int, bool, type(None), float)
 # ---------------------------------------------------------------------------
 # canonical forms and verdicts
 
+def _looks_like_region(r):
+    return all(hasattr(r, a) for a in ('offset', 'length', 'data', 'complete')) and \
+        not isinstance(r, (bytes, str, int, dict, list, tuple))
+
+
+def regions_attr(i):
+    """Name of the attribute in which an inspector keeps its capture regions (a dict
+    name -> region), whatever it is called."""
+    d = i.__dict__
+    if isinstance(d.get('_capture_regions'), dict):
+        return '_capture_regions'
+    for k, v in d.items():
+        if isinstance(v, dict) and v and all(_looks_like_region(r) for r in v.values()):
+            return k
+    return None
+
+
+def regions_of(i):
+    k = regions_attr(i)
+    return i.__dict__[k] if k else {}
+
+
+def checks_attr(i):
+    d = i.__dict__
+    if isinstance(d.get('_safety_checks'), dict):
+        return '_safety_checks'
+    for k, v in d.items():
+        if isinstance(v, dict) and v and all(hasattr(c, 'target_fn') for c in v.values()):
+            return k
+    return None
+
+
+def checks_of(i):
+    k = checks_attr(i)
+    return i.__dict__[k] if k else {}
+
+
+def inspectors_attr(w):
+    """Name of the attribute in which the wrapper keeps the inspectors it feeds: the
+    largest collection of inspectors among its attributes."""
+    best, n = None, -1
+    for k, v in w.__dict__.items():
+        if _is_inspector_collection(v) and len(v) > n:
+            best, n = k, len(v)
+    return best
+
+
+def inspectors_of(w):
+    k = inspectors_attr(w)
+    return w.__dict__[k] if k else []
+
+
 def canon_region(r):
     return (type(r).__name__, r.offset, r.length, r.min_length, r.data,
             getattr(r, '_complete', None))
 
 
 def canon_inspector(i):
-    regs = tuple((n,) + canon_region(r) for n, r in i._capture_regions.items())
+    ra, ca = regions_attr(i), checks_attr(i)
+    regs = tuple((n,) + canon_region(r) for n, r in regions_of(i).items())
     other = tuple(sorted(
         (k, v if isinstance(v, _SIMPLE) else repr(v))
         for k, v in i.__dict__.items()
-        if k not in ('_capture_regions', '_safety_checks', '_tracing') and
+        if k not in (ra, ca, '_tracing') and
         not callable(v)))
-    return (type(i).__name__, regs, other, tuple(i._safety_checks))
+    return (type(i).__name__, regs, other, tuple(checks_of(i)))
 
 
 def _q(fn):
@@ -76,7 +129,7 @@ def query_all(i):
 def region_exactness(i, data, p):
     """I1: what a region retains is exactly the stream's bytes at its offsets."""
     bad = []
-    for name, r in i._capture_regions.items():
+    for name, r in regions_of(i).items():
         n = len(r.data)
         if n > r.length:
             bad.append((name, 'longer-than-length', n, r.length))
@@ -102,10 +155,11 @@ def _clone_plain(o):
 def clone_inspector(i):
     n = object.__new__(type(i))
     d = n.__dict__
+    ra, ca = regions_attr(i), checks_attr(i)
     for k, v in i.__dict__.items():
-        if k == '_capture_regions':
+        if k == ra:
             d[k] = {name: _clone_plain(r) for name, r in v.items()}
-        elif k == '_safety_checks':
+        elif k == ca:
             checks = {}
             for name, c in v.items():
                 nc = object.__new__(type(c))
@@ -180,8 +234,9 @@ def clone_wrapper(w):
 
 def canon_wrapper(w):
     items = []
+    ia = inspectors_attr(w)
     for k, v in sorted(w.__dict__.items()):
-        if k == '_inspectors':
+        if k == ia:
             items.append((k, tuple(sorted((canon_inspector(i) for i in v),
                                           key=lambda c: c[0]))))
         elif isinstance(v, fi.FileInspector):
@@ -263,6 +318,19 @@ class Src:
         return s
 
 
+def install_detset(w, reverse=False):
+    """The wrapper keeps its inspectors in a set hashed by id: replace it by a set with a
+    harness-chosen, reproducible iteration order (only if it *is* a plain set)."""
+    k = inspectors_attr(w)
+    if k is None or type(w.__dict__[k]) not in (set, DetSet):
+        return None
+    ds = DetSet(set.__iter__(w.__dict__[k]) if isinstance(w.__dict__[k], DetSet) else w.__dict__[k])
+    if reverse:
+        ds._reverse = True
+    w.__dict__[k] = ds
+    return ds
+
+
 def make_wrapper(data, expected=None, allowed=None, reverse=False, positional=False):
     if positional:
         w = fi.InspectWrapper(Src(data), expected, allowed)     # the documented parameter order
@@ -271,10 +339,7 @@ def make_wrapper(data, expected=None, allowed=None, reverse=False, positional=Fa
                               allowed_formats=allowed)
     # the wrapper keeps its inspectors in a set hashed by id: give it a set
     # with a harness-chosen, reproducible iteration order instead
-    ds = DetSet(w._inspectors)
-    if reverse:
-        ds._reverse = True
-    w._inspectors = ds
+    install_detset(w, reverse)
     return w
 
 
@@ -360,7 +425,7 @@ class WrapperSystem:
         return (d, f, verdict_inspector(insp) if insp is not None else None)
 
     def inspectors(self, w):
-        return list(w._inspectors)
+        return list(inspectors_of(w))
 
     decision = staticmethod(wrapper_decision)
 
@@ -426,7 +491,7 @@ def pilot_bounds(system, data, cuts):
                 system.feed(obj, data, p, q)
                 p = q
                 for i in system.inspectors(obj):
-                    for r in i._capture_regions.values():
+                    for r in regions_of(i).values():
                         if not isinstance(r, fi.EndCaptureRegion):
                             out.update((r.offset, r.offset + r.length,
                                         r.offset + len(r.data)))
@@ -609,7 +674,7 @@ def replay_path(system, data, path, queries=False, observe=True):
                       'regions': [
                           (i.NAME, n, r.offset, len(r.data), r.length)
                           for i in system.inspectors(obj)
-                          for n, r in i._capture_regions.items()],
+                          for n, r in regions_of(i).items()],
                       'decision': system.decision(obj)})
     return obj, trace
 
@@ -669,14 +734,14 @@ def typed_run(sysname, data, cuts, kind, allowed=None):
     try:
         if sysname == 'wrapper':
             w = fi.InspectWrapper(src, allowed_formats=allowed)
-            w._inspectors = DetSet(w._inspectors)
+            install_detset(w)
             for a, b in zip(pts, pts[1:]):
                 got = w.read(b - a)
                 if bytes(got) != data[a:b]:
                     return ('transparency-broken',), bad
                 src.scribble()
             w.close()
-            for i in w._inspectors:
+            for i in inspectors_of(w):
                 bad += [(i.NAME,) + x for x in region_exactness(i, data, len(data))]
             sysm = WrapperSystem()
             return sysm.verdict(w), bad
